@@ -8,6 +8,7 @@ TV   : compute_features on the corpus, both centrings, with and without sample c
 """
 import mc_feat
 import pipeline
+import tables_tv
 
 PREFIXES = ['C04.']
 
@@ -20,11 +21,13 @@ def run(ctx):
         mc_feat.run_shape(ctx, 'C04', 5, 2)
         pipeline.run_corpus(ctx, 220, PREFIXES, seed_offset=4)
         pipeline.run_large(ctx, PREFIXES, 4, 3, 1)          # beyond small scopes: long cycles, long recordings
+        tables_tv.run_rename(ctx, PREFIXES, 30, 41)
     else:
         mc_feat.run_shape(ctx, 'C04', 6, 2)
         mc_feat.run_shape(ctx, 'C04', 7, 1)
         pipeline.run_corpus(ctx, 4000, PREFIXES, seed_offset=4, max_len=2600)
         pipeline.run_large(ctx, PREFIXES, 4, 12, 6)          # beyond small scopes: long cycles, long recordings
+        tables_tv.run_rename(ctx, PREFIXES, 400, 41)
 
 
 def replay(ctx, case):
